@@ -150,8 +150,9 @@ class SCheck(Check):
                 return False
             return any(g["property"] == f["property"] and g["class"] == f["class"] for r in rec["runs"] for g in r["findings"])
 
+        cross = f["class"].startswith(("tree-differs", "exit-status-differs"))
         # 1. a single plan
-        for p in list(best["plans"]):
+        for p in ([] if cross else list(best["plans"])):
             if time.time() > deadline:
                 return best
             cand = dict(best, plans=[p])
@@ -161,8 +162,9 @@ class SCheck(Check):
         # 1b. a violation that only exists between runs (cross-run comparison): the smallest pair of plans that still shows it
         if len(best["plans"]) > 2 and self.compare_runs:
             done = False
-            for i in range(len(best["plans"])):
-                for j in range(i + 1, len(best["plans"])):
+            n_ = len(best["plans"])
+            for i in range(n_):
+                for j in range(i + 1, n_):
                     if time.time() > deadline or done:
                         break
                     cand = dict(best, plans=[best["plans"][i], best["plans"][j]])
